@@ -9,16 +9,19 @@
 (*   labels     every label up to 2 characters over a punctuation alphabet as   *)
 (*              taxon label, internal label or root label x every consistent    *)
 (*              option pair x schema                                            *)
+(*   singles    single-node trees whose only label is one punctuation character,*)
+(*              lists of 1..MaxSingles, every rooting state, with/without weights*)
 (*   lists      tree lists of length 0..MaxList x rooting states x tree weights *)
 (*              x suppress_rooting with the matching reader rooting             *)
 (* Design selects the reference design or one as-shipped rule (AsShipped cfgs).  *)
 EXTENDS NewickRoundTrip
-CONSTANTS MaxNodes, MaxLeaves, MaxList, SymLeaves, Design, Domains
+CONSTANTS MaxNodes, MaxLeaves, MaxList, SymLeaves, MaxSingles, Design, Domains
 VARIABLE inst
 
 D == CASE Design = "reference" -> NwReference
        [] Design = "protect" -> [NwReference EXCEPT !.protect = "shipped"]
-       [] Design = "quoted" -> [NwReference EXCEPT !.quoteAware = FALSE]
+       [] Design = "quoted" -> [NwReference EXCEPT !.quoteAware = FALSE, !.leadAware = FALSE]
+       [] Design = "leadsemi" -> [NwReference EXCEPT !.leadAware = FALSE]
        [] Design = "attr" -> [NwReference EXCEPT !.attr = "json"]
        [] Design = "len" -> [NwReference EXCEPT !.missingLen = "all"]
        [] Design = "empty" -> [NwReference EXCEPT !.emptyOk = FALSE]
@@ -84,7 +87,20 @@ InitLists ==
                   o |-> [O0 EXCEPT !.suprooting = sr, !.weights = wt,
                                    !.rrooting = IF ~sr THEN "" ELSE IF rs = {1} THEN "force-rooted" ELSE IF rs = {0} THEN "force-unrooted" ELSE ""]]
 
-Init == \/ "lists" \in Domains /\ InitLists
+\* single-node trees whose only label is one punctuation character, in lists of 1..MaxSingles trees, every
+\* rooting state per tree, with and without the weight token (rooting / weight comments precede the label)
+SinglePunct == {"lp", "rp", "cm", "sc", "co", "eq", "bs", "dq", "lc", "rc", "lb", "rb", "sq", "a"}
+Single(t, r, w) == [g |-> MkG(<<0>>, <<1>>, <<<<>>>>, <<"">>, r), w |-> w]
+InitSingles ==
+    \E c \in SinglePunct, m \in 1..MaxSingles, cfg \in {"newick", "nexus", "nexus+t", "nexml"}, wt \in BOOLEAN :
+      \E rs \in [1..m -> {-1, 0, 1}] :
+       /\ (wt => cfg # "nexml" /\ m <= 2)
+       /\ inst = [dom |-> "singles", schema |-> IF cfg = "nexus+t" THEN "nexus" ELSE cfg, ns |-> <<<<c>>>>,
+                  trees |-> [i \in 1..m |-> Single(<<c>>, rs[i], IF wt THEN "w2" ELSE "")],
+                  o |-> [O0 EXCEPT !.weights = wt, !.translate = (cfg = "nexus+t")]]
+
+Init == \/ "singles" \in Domains /\ InitSingles
+        \/ "lists" \in Domains /\ InitLists
         \/ "labels" \in Domains /\ InitLabels
         \/ "symbols" \in Domains /\ InitSymbols
         \/ "structure" \in Domains /\ InitStructure
